@@ -9,7 +9,7 @@ over accepted programs); the accept rate per family is written into the evidence
 Tables (the SQLite schema of stream (c) and the closed schema of the scope model):
   t(id,a,b,c,g)  u(id,a,d,g)   -- the tables of vplib/rel/prog.py
   v(id,s,dt,x,y)               -- text / date / float columns
-  `my table`(a, `select`, `a b`, Mixed)
+  `my table`(a, `order`, `a b`, Mixed)
 """
 from ..rel import prog as P
 
@@ -17,7 +17,7 @@ SCHEMA = {
     "t": ["id", "a", "b", "c", "g"],
     "u": ["id", "a", "d", "g"],
     "v": ["id", "s", "dt", "x", "y"],
-    "my table": ["a", "select", "a b", "Mixed"],
+    "my table": ["a", "order", "a b", "Mixed"],
 }
 
 
@@ -179,7 +179,7 @@ class G:
     def f_loop(self):
         r = self.r
         init = self.pick(["from [{n = 1}]", "from [{n = 1, m = 2}]", "from t | select {n = a}", "from t | filter a == 1 | select {n = a, m = b}", "from t | take 1 | select {n = id}"])
-        two = "m" in init
+        two = "m =" in init
         step = self.pick(["filter n < %d | select {n = n + 1%s}" % (r.randint(2, 6), ", m = m * 2" if two else ""),
                           "select {n = n + 1%s} | filter n < 4" % (", m" if two else ""),
                           "filter n < 3 | derive {k = n + 1} | select {n = k%s}" % (", m" if two else ""),
@@ -210,9 +210,9 @@ class G:
         elif k == 5:
             src = "from [{a = @2020-01-01, b = @10:00, c = 3days}]"
         else:
-            src = "from [{`select` = 1, `a b` = 2}]"
+            src = "from [{`order` = 1, `a b` = 2}]"
         post = self.pick(["", "\nfilter a > 1", "\nderive {z = a}", "\nselect {a}", "\njoin t (==a)", "\nsort a | take 1", "\naggregate {n = count this}",
-                          "\nappend (from [{a = 9, b = \"z\"}])" if k == 0 else "", "\ntake 2.."]) if k != 6 else self.pick(["", "\nselect {`select`}", "\nsort `a b`"])
+                          "\nappend (from [{a = 9, b = \"z\"}])" if k == 0 else "", "\ntake 2.."]) if k != 6 else self.pick(["", "\nselect {`order`}", "\nsort `a b`"])
         if post.endswith(".."):
             tags.add("open_take")
         return src + post.replace(" | ", "\n"), tags
@@ -424,19 +424,19 @@ class G:
         k = r.randint(0, 6)
         tags = {"quoted"}
         if k == 0:
-            src = "from `my table`\nselect {`select`, `a b`, `Mixed`}"
+            src = "from `my table`\nselect {`order`, `a b`, `Mixed`}"
         elif k == 1:
-            src = "from `my table`\nfilter `a b` > 1\nsort `select`\ntake 2"
+            src = "from `my table`\nfilter `a b` > 1\nsort `order`\ntake 2"
         elif k == 2:
             src = "from order = t\njoin `group` = u (order.id == `group`.id)\nselect {order.a, `group`.d}"
         elif k == 3:
-            src = "from t\nderive {`from` = a, `where` = b}\nfilter `from` > 1\nsort `where`"
+            src = "from t\nderive {`table` = a, `where` = b}\nfilter `table` > 1\nsort `where`"
         elif k == 4:
             src = "from `my table`\nderive {`x y` = a + 1}\ntake 3\nfilter `x y` > 2"
         elif k == 5:
             src = "from t\nselect {`Order` = a, `user` = b, `Table` = c}\nsort `Order`"
         else:
-            src = "from `my table`\ngroup {`select`} (aggregate {`max a` = max a})\nsort {-`max a`}"
+            src = "from `my table`\ngroup {`order`} (aggregate {`max a` = max a})\nsort {-`max a`}"
         return src, tags
 
     def f_distinct(self):
